@@ -28,3 +28,5 @@ def run(ctx, rep):
     more4.rule_workfreeall_order(mod, rep)
     from ..rules import more4
     more4.rule_int_work_fill(mod, rep)
+    from ..rules import more5
+    more5.rule_align_dir(mod, rep)
